@@ -68,6 +68,13 @@ type Case struct {
 	Muts  []Mut `json:"muts"`
 	Gm    bool  `json:"gm"` // table: also run the getMany phase
 	Short []int `json:"short"` // table (probe only, never generated): ResolveShortHash of this prefix string
+	// resolve: short prefixes to resolve. tuple: index tuple of the pristine file whose hash is taken
+	// (negative: from the end), n: number of characters kept; or raw: literal characters
+	Shorts []struct {
+		Tuple int   `json:"tuple"`
+		N     int   `json:"n"`
+		Raw   []int `json:"raw"`
+	} `json:"shorts"`
 
 	Phase string `json:"phase,omitempty"` // set by the parent: main | getmany
 	Dir   string `json:"dir,omitempty"`   // set by the parent: scratch directory of this case
@@ -76,6 +83,11 @@ type Case struct {
 type AddrObs struct {
 	Has string `json:"has"` // t | f | err | panic
 	Get string `json:"get"` // absent | ok | bad | eof | crc | empty | snappy | err | panic
+}
+
+type ResolveObs struct {
+	Code string   `json:"code"` // ok | err | panic
+	Res  []string `json:"res"`
 }
 
 type JRecObs struct {
@@ -105,6 +117,9 @@ type Obs struct {
 	GetMany  string    `json:"getmany"` // ok | bad | err | crash | skip
 	Detail   []string  `json:"detail,omitempty"`
 	CrashMsg string    `json:"crashmsg,omitempty"`
+	// resolve
+	Shorts  [][]int      `json:"shorts"`
+	Resolve []ResolveObs `json:"resolve"`
 	// journal
 	Class string    `json:"class"` // ok | dataloss | err | panic
 	Recs  []JRecObs `json:"recs"`
@@ -324,6 +339,8 @@ func work1(raw json.RawMessage) (any, error) {
 	switch c.K {
 	case "table":
 		return workTable(&c)
+	case "resolve":
+		return workResolve(&c)
 	case "journal":
 		return workJournal(&c)
 	case "manifest":
@@ -453,6 +470,97 @@ func workTable(c *Case) (any, error) {
 	})
 	if msg != "" {
 		o.Detail = append(o.Detail, "iter: "+msg)
+	}
+	return o, nil
+}
+
+// tupleHash returns the address spelled by index tuple j of a pristine table file.
+func tupleHash(file []byte, j int) (h hash.Hash) {
+	c := len(recSpans(file))
+	if c == 0 {
+		return
+	}
+	j = norm(j, c)
+	idx := len(file) - 28*c - 20
+	t := idx + 12*j
+	ord := int(uint32(file[t+8])<<24 | uint32(file[t+9])<<16 | uint32(file[t+10])<<8 | uint32(file[t+11]))
+	copy(h[:8], file[t:t+8])
+	copy(h[8:], file[idx+16*c+12*ord:idx+16*c+12*ord+12])
+	return
+}
+
+func workResolve(c *Case) (any, error) {
+	ctx := context.Background()
+	data := make([][]byte, len(c.Chunks))
+	for i, ch := range c.Chunks {
+		data[i] = toBytes(ch)
+	}
+	file, name, _, err := nbs.VerifC10BuildTable(data)
+	if err != nil {
+		return nil, err
+	}
+	cnt := c.Cnt
+	if cnt < 0 {
+		cnt = len(c.Chunks)
+	}
+	mf := mutate(file, c.Muts)
+	o := Obs{K: "resolve", Bytes: fromBytes(mf), Cnt: cnt, Iter: "skip", GetMany: "skip", Res: []AddrObs{}, Recs: []JRecObs{}, Specs: []SpecObs{}, Shorts: [][]int{}, Resolve: []ResolveObs{}}
+	var shorts [][]byte
+	for _, s := range c.Shorts {
+		if s.Raw != nil {
+			shorts = append(shorts, toBytes(s.Raw))
+			continue
+		}
+		str := tupleHash(file, s.Tuple).String()
+		n := s.N
+		if n > len(str) {
+			n = len(str)
+		}
+		shorts = append(shorts, []byte(str[:n]))
+	}
+	for _, s := range shorts {
+		o.Shorts = append(o.Shorts, fromBytes(s))
+	}
+	if err := os.WriteFile(filepath.Join(c.Dir, name.String()), mf, 0o644); err != nil {
+		return nil, err
+	}
+	var tbl *nbs.VerifC10Table
+	var msg string
+	o.Open, msg = safe(func() string {
+		t, err := nbs.VerifC10OpenTable(ctx, c.Dir, name, uint32(cnt))
+		if err != nil {
+			o.OpenErr = err.Error()
+			return "err"
+		}
+		tbl = t
+		return "ok"
+	})
+	if msg != "" {
+		o.Detail = append(o.Detail, "open: "+msg)
+	}
+	if o.Open != "ok" {
+		return o, nil
+	}
+	defer func() {
+		defer func() { recover() }()
+		tbl.Close()
+	}()
+	for _, s := range shorts {
+		var r ResolveObs
+		r.Res = []string{}
+		r.Code, msg = safe(func() string {
+			res, _, err := tbl.ResolveShortHash(s)
+			if err != nil {
+				return "err"
+			}
+			r.Res = append(r.Res, res...)
+			return "ok"
+		})
+		if msg != "" {
+			o.Detail = append(o.Detail, "resolve: "+msg)
+			r.Res = []string{}
+		}
+		o.Resolve = append(o.Resolve, r)
 	}
 	return o, nil
 }
